@@ -70,6 +70,14 @@ func (d *Dir) Write(files map[string][]byte) error {
 		return err
 	}
 
+	// If the write fails before the new version is live, do not leave its partially filled directory behind
+	live := false
+	defer func() {
+		if !live {
+			_ = os.RemoveAll(newDir)
+		}
+	}()
+
 	for file, b := range files {
 		path := filepath.Join(newDir, file)
 		if err := os.WriteFile(path, b, os.ModePerm); err != nil {
@@ -106,6 +114,8 @@ func (d *Dir) Write(files map[string][]byte) error {
 	if err := os.Rename(d.target+".new", d.target); err != nil {
 		return err
 	}
+
+	live = true
 
 	d.log.Infof("Atomic write to %s", d.target)
 
